@@ -1,6 +1,7 @@
 import Proofs.WireLayout
 import Proofs.WireEncLen
 import Proofs.LayoutAlign
+import Proofs.WireCompleteDec
 /-!
 # C06 ∩ C02 — the bit length of every encoding is an element of the type's bit length set
 
@@ -25,7 +26,28 @@ theorem C06.length_in_bit_length_set (t : Wire.Ty) (v : Wire.Val) (o : ℕ)
   rw [Layout.den_bls _ hl, ← hasLen_iff t hw]
   exact Wire.enc_len t v o hw hv ho
 
+/-- No spurious element: for a type without delimited members the set denoted by its `bit_length_set` expression is
+    EXACTLY the set of bit lengths of the encodings of its valid values (at any aligned offset). -/
+theorem C06.bit_length_set_exact (t : Wire.Ty) (L o : ℕ)
+    (hw : t.wf = true) (hl : (toLayout t).wf = true) (hs : t.noDelim = true) (ho : o % t.align = 0) :
+    L ∈ den (toLayout t).bls ↔ ∃ v, Wire.valid t v = true ∧ (Wire.enc t v o).length = L := by
+  rw [Layout.den_bls _ hl, ← hasLen_iff t hw]
+  exact ⟨fun h => Wire.enc_complete t L o hw hs h ho, fun ⟨v, hv, hlen⟩ => hlen ▸ Wire.enc_len t v o hw hv ho⟩
+
+/-- With delimited members (any depth): every element of the set denoted by `bit_length_set` is the exact number of
+    bits the type's decoder consumes on some accepted representation, and every encoding length is an element. -/
+theorem C06.bit_length_set_reader_exact (t : Wire.Ty) (L o : ℕ)
+    (hw : t.wf = true) (hl : (toLayout t).wf = true) (ho : o % t.align = 0) (h : L ∈ den (toLayout t).bls) :
+    ∃ (b : List Bool) (v : Wire.Val), b.length = L ∧ Wire.valid t v = true ∧
+      ∀ junk, Wire.dec t ⟨o, b ++ junk⟩ = .ok (v, ⟨o + L, junk⟩) := by
+  rw [Layout.den_bls _ hl, ← hasLen_iff t hw] at h
+  obtain ⟨b, v, hlen, hd⟩ := Wire.dec_consumes t L hw h o ho
+  exact ⟨b, v, hlen, Wire.dec_valid t _ v _ hw (hd []), hd⟩
+
 /-! ### Non-vacuity -/
 example : (Wire.Ty.struct [.uint 3 .sat, .varr (.struct [.uint 8 .sat] .sealed) 300, .void 5] .sealed).wf = true ∧
     (toLayout (Wire.Ty.struct [.uint 3 .sat, .varr (.struct [.uint 8 .sat] .sealed) 300, .void 5] .sealed)).wf = true := by
   constructor <;> decide +kernel
+
+example : (Wire.Ty.struct [.uint 3 .sat, .varr (.struct [.uint 8 .sat] .sealed) 300, .void 5] .sealed).noDelim = true := by
+  decide
